@@ -53,6 +53,7 @@ class Ctx:
             if f.endswith('.py'):
                 h.update(open(os.path.join(ROOT, 'mirse', f), 'rb').read())
         h.update(open(os.path.join(ROOT, 'replay', 'src', 'main.rs'), 'rb').read())
+        h.update(open(os.path.join(ROOT, 'replay-rt', 'src', 'main.rs'), 'rb').read())
         p = os.path.join(CACHE, f"{name}-{self.tree}-{self.tier}-{self.seed}-{h.hexdigest()[:12]}.pkl")
         if os.path.exists(p):
             try:
